@@ -1891,9 +1891,22 @@ def _unroll_constant_loops(fn):
     this loop and does not rebind the variable"""
     import copy
 
+    def getter(e):
+        return isinstance(e, ast.Call) and ((isinstance(e.func, ast.Attribute) and e.func.attr == 'attrgetter' and isinstance(e.func.value, ast.Name) and e.func.value.id == 'operator') or
+                                            (isinstance(e.func, ast.Name) and e.func.id == 'attrgetter')) and len(e.args) == 1 and not e.keywords and \
+            isinstance(e.args[0], ast.Constant) and isinstance(e.args[0].value, str) and e.args[0].value.isidentifier()
+
     def simple(e):
-        return isinstance(e, (ast.Constant, ast.Name)) or (isinstance(e, ast.Attribute) and simple(e.value)) or \
-            (isinstance(e, ast.Tuple) and all(isinstance(y, (ast.Constant, ast.Name)) for y in e.elts))
+        return isinstance(e, (ast.Constant, ast.Name)) or (isinstance(e, ast.Attribute) and simple(e.value)) or getter(e) or \
+            (isinstance(e, ast.Tuple) and all(isinstance(y, (ast.Constant, ast.Name)) or getter(y) for y in e.elts))
+
+    class _Getters(ast.NodeTransformer):
+        # operator.attrgetter('a')(x) is x.a
+        def visit_Call(self, node):
+            self.generic_visit(node)
+            if getter(node.func) and len(node.args) == 1 and not node.keywords and not isinstance(node.args[0], ast.Starred):
+                return ast.copy_location(ast.Attribute(value=node.args[0], attr=node.func.args[0].value, ctx=ast.Load()), node)
+            return node
 
     def leaves_loop(stmts):
         for st in stmts:
@@ -1955,7 +1968,7 @@ def _unroll_constant_loops(fn):
                             continue        # the loop variable is read nowhere but in the body, where its value is written out
                         out.append(ast.copy_location(ast.Assign(targets=[ast.Name(id=t, ctx=ast.Store())], value=copy.deepcopy(v), type_comment=None), st))
                     for s_ in st.body:
-                        out.append(_Subst(m).visit(copy.deepcopy(s_)))
+                        out.append(_Getters().visit(_Subst(m).visit(copy.deepcopy(s_))))
                 for o in out:
                     ast.fix_missing_locations(o)
                 lst[b:b + 1] = out or [ast.copy_location(ast.Pass(), st)]
@@ -1987,6 +2000,9 @@ def _is_literal_table(e):
         return _is_literal_table(e.value)
     if isinstance(e, ast.BinOp) and isinstance(e.op, ast.Add):
         return _is_literal_table(e.left) and _is_literal_table(e.right)
+    if isinstance(e, ast.Call) and not e.keywords and len(e.args) == 1 and isinstance(e.args[0], ast.Constant) and \
+            ((isinstance(e.func, ast.Attribute) and e.func.attr == 'attrgetter') or (isinstance(e.func, ast.Name) and e.func.id == 'attrgetter')):
+        return True                 # operator.attrgetter('name'): a field name in the dress of a callable
     return False
 
 
@@ -2386,7 +2402,7 @@ class Module:
         kd = _KNOWN_EXTRA.get('digests', {}).get(relpath)
         if kd is not None:
             # functions that are not as they were when the tree was read: a field that is staged in a local gets its value directly
-            changed_fns = [(q, node) for q, node in function_table(raw).items() if q in kd and kd[q] != fn_digest(node)]
+            changed_fns = [(q, node) for q, node in function_table(raw).items() if q not in kd or kd[q] != fn_digest(node)]
         else:
             changed_fns = []
         kc = _KNOWN_EXTRA.get('constants', {}).get(relpath)
